@@ -4,7 +4,8 @@
 
   The matcher (`match_geometries`, C07) is a parameter; `MatcherCover n m ms` is its contract on
   `n` source and `m` target geometries: every source and every target position occurs exactly
-  once, no entry is empty, affinities lie in [0, 1] and are 0 on one-sided entries.  The harness
+  once, no entry is empty, affinities lie in [0, 1], are 0 on one-sided entries and positive on
+  pairs (C07's `cover` and `positive_pairs`, after the repair of `match_geometries`).  The harness
   evaluates `matcherCoverB` (proved equivalent below) on every answer of the real matcher.
 -/
 import SoundeventModel.Detection
@@ -78,10 +79,7 @@ theorem C08_cover (C : Nat) (preds : List SEPred) (anns : List SEAnn) (ms : List
     · simp at hm
     · simp only [List.mem_singleton] at hm; subst hm; simp [unmatchedAnn]
     · simp only [List.mem_singleton] at hm; subst hm; simp [unmatchedPred]
-    · split at hm
-      · simp only [List.mem_singleton] at hm; subst hm; simp [matchedPair]
-      · simp only [List.mem_cons, List.mem_nil_iff, or_false] at hm
-        rcases hm with rfl | rfl <;> simp [unmatchedPred, unmatchedAnn]
+    · simp only [List.mem_singleton] at hm; subst hm; simp [matchedPair]
   · simp [unmatchedPred]
   · simp [unmatchedAnn]
 
@@ -116,9 +114,9 @@ theorem C08_index_faithful_annotations (anns : List SEAnn) :
 /-! ### what a match reports -/
 
 /-- a paired match names the two sound events whose geometries the matcher paired (index
-    faithfulness), only if the matcher found them overlapping (affinity > 0); it reports that
-    affinity, and as score and sole metric the probability the prediction gives to the
-    annotation's class -/
+    faithfulness) — which it does only when they overlap (affinity > 0, the matcher's contract);
+    it reports that affinity, and as score and sole metric the probability the prediction
+    gives to the annotation's class -/
 theorem C08_pairs_overlap_report_affinity_score (C : Nat) (preds : List SEPred) (anns : List SEAnn)
     (ms : List MEntry) (es : List Entry)
     (hc : MatcherCover (preds.filter (·.hasGeom)).length (anns.filter (·.hasGeom)).length ms)
@@ -137,7 +135,8 @@ theorem C08_pairs_overlap_report_affinity_score (C : Nat) (preds : List SEPred) 
   rw [evalClip_of_cover C preds anns ms hc] at h
   cases h
   rcases mem_clipEntries.mp he with ⟨m, hm, hem⟩ | ⟨i, _, rfl⟩ | ⟨j, _, rfl⟩
-  · obtain ⟨k, l, hs, ht, ha, rfl⟩ := stepTotal_paired hem hp
+  · obtain ⟨k, l, hs, ht, rfl⟩ := stepTotal_paired hem hp
+    have ha : 0 < m.aff := (hc.2.2 m hm).2.2.2.2 ⟨by simp [hs], by simp [ht]⟩
     have hk := cover_src_lt hc hm hs
     have hl := cover_tgt_lt hc hm ht
     refine ⟨m, hm, k, l, (geomIdx (preds.map (·.hasGeom))).getD k 0, (geomIdx (anns.map (·.hasGeom))).getD l 0,
@@ -167,7 +166,7 @@ theorem C08_unpaired_zero (C : Nat) (preds : List SEPred) (anns : List SEAnn) (m
   cases h
   rcases mem_clipEntries.mp he with ⟨m, hm, hem⟩ | ⟨i, _, rfl⟩ | ⟨j, _, rfl⟩
   · have := hc.2.2 m hm
-    exact stepTotal_unpaired hem hp this.2.1 this.2.2.2
+    exact stepTotal_unpaired hem hp this.2.2.2.1
   · exact ⟨rfl, rfl⟩
   · exact ⟨rfl, rfl⟩
 
@@ -209,15 +208,17 @@ theorem C08_matcher_contract_checked (n m : Nat) (ms : List MEntry) (h : matcher
   refine ⟨perm_range_of_counts _ n h1 h2, perm_range_of_counts _ m h3 h4, ?_⟩
   intro e he
   have := h5 e he
-  simp only [Bool.or_eq_true, Bool.and_eq_true, beq_iff_eq] at this
+  simp only [Bool.or_eq_true, beq_iff_eq] at this
   obtain ⟨⟨⟨ha, hb⟩, hc⟩, hd⟩ := this
-  refine ⟨ha, hb, hc, ?_⟩
-  intro hnone
-  rcases hd with ⟨hs, ht⟩ | hz
-  · rcases hnone with h | h
-    · simp [Option.isNone_iff_eq_none.mp h] at hs
-    · simp [Option.isNone_iff_eq_none.mp h] at ht
-  · exact hz
+  refine ⟨ha, hb, hc, ?_, ?_⟩
+  · intro hnone
+    by_cases hboth : e.src.isSome = true ∧ e.tgt.isSome = true
+    · rcases hnone with h | h
+      · simp [Option.isNone_iff_eq_none.mp h] at hboth
+      · simp [Option.isNone_iff_eq_none.mp h] at hboth
+    · rw [if_neg hboth] at hd; simpa using hd
+  · intro hboth
+    rw [if_pos hboth] at hd; simpa using hd
 
 /-! ### the executable cover statement used as monitor -/
 
@@ -386,12 +387,9 @@ theorem C08_scores_in_range (C : Nat) (preds : List SEPred) (anns : List SEAnn) 
       · simp at hm
       · simp only [List.mem_singleton] at hm; subst hm; exact hz
       · simp only [List.mem_singleton] at hm; subst hm; exact hz
-      · split at hm
-        · simp only [List.mem_singleton] at hm; subst hm
-          simp only [matchedPair]
-          exact tcp_range _ (hrow _).1 (hrow _).2
-        · simp only [List.mem_cons, List.mem_nil_iff, or_false] at hm
-          rcases hm with rfl | rfl <;> exact hz
+      · simp only [List.mem_singleton] at hm; subst hm
+        simp only [matchedPair]
+        exact tcp_range _ (hrow _).1 (hrow _).2
     · exact hz
     · exact hz
   refine ⟨hall, ?_⟩
@@ -419,13 +417,15 @@ example : matcherCoverB 1 1 [⟨some 1, some 0, 1/3⟩] = false := by decide +ke
 example : matcherCoverB 1 0 [⟨some 0, none, 1/2⟩] = false := by decide +kernel
 -- the filtered → original map skips the geometry-less events
 example : geomIdx [false, true, false, true] = [1, 3] ∧ noGeomIdx [false, true, false, true] = [0, 2] := by decide
--- a clip with a geometry-less prediction first: the matcher's source 0 is prediction 1; the pair with
--- affinity 0 is split into two unmatched entries; the geometry-less prediction is appended unmatched
+-- a clip with a geometry-less prediction first: the matcher's source 0 is prediction 1; non-overlapping
+-- events come from the matcher as one-sided entries; the geometry-less prediction is appended unmatched
 example :
     (evalClip 2 [⟨0, false, [(some 0, 1/2)]⟩, ⟨1, true, [(some 1, 3/4)]⟩] [⟨2, true, [some 1]⟩, ⟨3, true, [some 0]⟩]
-      [⟨some 0, some 1, 0⟩, ⟨none, some 0, 0⟩]).map (fun es => es.map (fun e => (e.src, e.tgt, e.aff, e.score)))
+      [⟨some 0, none, 0⟩, ⟨none, some 1, 0⟩, ⟨none, some 0, 0⟩]).map (fun es => es.map (fun e => (e.src, e.tgt, e.aff, e.score)))
     = some [(some 1, none, 0, 0), (none, some 1, 0, 0), (none, some 0, 0, 0), (some 0, none, 0, 0)] := by
   decide +kernel
+-- a two-sided entry with affinity 0 violates the contract (the matcher no longer produces it)
+example : matcherCoverB 1 1 [⟨some 0, some 0, 0⟩] = false := by decide +kernel
 example :
     (evalClip 2 [⟨0, false, [(some 0, 1/2)]⟩, ⟨1, true, [(some 1, 3/4)]⟩] [⟨2, true, [some 1]⟩]
       [⟨some 0, some 0, 1/3⟩]).map (fun es => es.map (fun e => (e.src, e.tgt, e.aff, e.score)))
